@@ -71,20 +71,31 @@ Proof.
       inversion H; subst; auto.
 Qed.
 
-Lemma notify_slot_fields s rep cons c o c' :
-  notify_slot s rep cons c = (o, c') ->
+Lemma notify_slot_gen_fields b s rep cons c o c' :
+  notify_slot_gen b s rep cons c = (o, c') ->
   c_phase c' = c_phase c /\ c_out c' = c_out c /\ c_ids c' = c_ids c /\ c_slots c' = c_slots c /\
   c_ch0 c' = c_ch0 c.
 Proof.
-  unfold notify_slot. destruct (send (s_reply s) rep c) as [o1 c1] eqn:E1.
-  destruct (send_fields E1) as (a & b & d & e & f).
-  destruct o1.
-  - destruct (send_all (s_consumers s) cons c1) as [o2 c2] eqn:E2.
-    destruct (send_all_fields E2) as (a' & b' & d' & e' & f').
-    destruct o2; intro H; inversion H; subst; cbn; repeat split; congruence.
-  - intro H; inversion H; subst; cbn; auto.
-  - intro H; inversion H; subst; cbn; auto.
+  unfold notify_slot_gen. destruct b.
+  - destruct (send_all (s_consumers s) cons c) as [o1 c1] eqn:E1.
+    destruct (send_all_fields E1) as (a & b & d & e & f).
+    destruct o1.
+    + destruct (send (s_reply s) rep c1) as [o2 c2] eqn:E2.
+      destruct (send_fields E2) as (a' & b' & d' & e' & f').
+      intro H; inversion H; subst; cbn; repeat split; congruence.
+    + intro H; inversion H; subst; cbn; auto.
+    + intro H; inversion H; subst; cbn; auto.
+  - destruct (send (s_reply s) rep c) as [o1 c1] eqn:E1.
+    destruct (send_fields E1) as (a & b & d & e & f).
+    destruct o1.
+    + destruct (send_all (s_consumers s) cons c1) as [o2 c2] eqn:E2.
+      destruct (send_all_fields E2) as (a' & b' & d' & e' & f').
+      intro H; inversion H; subst; cbn; repeat split; congruence.
+    + intro H; inversion H; subst; cbn; auto.
+    + intro H; inversion H; subst; cbn; auto.
 Qed.
+Definition notify_slot_fields s rep cons c o c' := @notify_slot_gen_fields true s rep cons c o c'.
+Definition notify_slot_cf_fields s rep cons c o c' := @notify_slot_gen_fields false s rep cons c o c'.
 
 (* what a successful Channel.Close from the server does: the slot and its id are gone,
    exactly Channel.CloseOk(n) is queued, phase and channel-0 state are untouched, and - by
@@ -453,21 +464,26 @@ Theorem cancel_ok_effect n tag dbg c s q :
 Proof.
   intros Hs Hn Hl Ht Hne Hroom Hrecv. unfold process. rewrite Hs. destruct n as [|p]; [contradiction|].
   unfold process_method. rewrite Hl, Ht. unfold send. cbn [c_qs set_slot set_slots].
-  rewrite (try_send_room _ Hroom). cbn [c_qs set_qs].
-  assert (Hrecv' : receivable q (pushed (s_reply s) (IReplyMethod (MCancelOk tag)) (c_qs c))).
-  { destruct Hrecv as (qu & Hq & Hrx & Hcap). exists qu. unfold pushed.
-    destruct (alookup (s_reply s) (c_qs c)); [|auto]. rewrite alookup_insert_neq by exact Hne. auto. }
-  rewrite (try_send_receivable _ Hrecv').
+  rewrite (try_send_receivable _ Hrecv). cbn [c_qs set_qs].
+  destruct Hrecv as (qu & Hq & Hrx & Hcap).
+  (* the caller's reply queue is another queue: it still has room *)
+  assert (Hroom' : has_room (s_reply s) (drop_tx q (pushed q IClientCancelled (c_qs c)))).
+  { destruct Hroom as (qr & Hqr & Hrxr & Hcapr). exists qr. split; [|auto].
+    unfold drop_tx. rewrite (pushed_lookup _ Hq).
+    rewrite alookup_insert_neq by (intro E; apply Hne; symmetry; exact E).
+    unfold pushed. rewrite Hq.
+    rewrite alookup_insert_neq by (intro E; apply Hne; symmetry; exact E). exact Hqr. }
+  rewrite (try_send_room _ Hroom').
   eexists. split; [reflexivity|]. split.
   - eexists. cbn. rewrite alookup_insert_eq. split; [reflexivity|]. cbn.
     clear. induction (s_consumers s) as [|[t' q'] l IH]; cbn; [reflexivity|].
     destruct (bytes_eqb tag t') eqn:E; [exact IH|]. cbn. rewrite E. exact IH.
-  - destruct Hrecv' as (qu1 & Hq1 & Hrx1 & Hcap1). destruct Hrecv as (qu & Hq & Hrx & Hcap).
-    assert (qu1 = qu).
-    { unfold pushed in Hq1. destruct (alookup (s_reply s) (c_qs c));
-        [rewrite alookup_insert_neq in Hq1 by exact Hne|]; congruence. }
-    subst qu1. exists qu. eexists. split; [exact Hq|]. cbn [c_qs set_qs].
-    split; [apply drop_tx_lookup; apply pushed_lookup; exact Hq1|]. cbn. auto.
+  - exists qu. eexists. split; [exact Hq|]. cbn [c_qs set_qs].
+    split.
+    + unfold pushed at 1. destruct Hroom' as (qr & Hqr & _). rewrite Hqr.
+      rewrite alookup_insert_neq by exact Hne.
+      apply drop_tx_lookup. apply pushed_lookup. exact Hq.
+    + cbn. auto.
 Qed.
 
 (* a tag that is not in the table gets nothing: a delivery for it ends the connection *)
